@@ -610,6 +610,7 @@ class History:
         self.snaps: list[dict] = []
         self.schedule: list = []
         self.ctor_failed = False
+        self.last_killed = False
         self.anomalies: list[dict] = []
         self.sessions = 0
         self.init_files = None
@@ -630,8 +631,8 @@ class History:
         if self.init_files is None:
             self.init_files, _ = self.snapshot()
         self.sessions += 1
-        if self.events:
-            self.events.append({"p": MAIN, "op": "crash" if self.events[-1].get("_killed") else "restart", "session_marker": True})
+        if self.sessions > 1:
+            self.events.append({"p": MAIN, "op": "crash" if self.last_killed else "restart", "session_marker": True})
         run = SessionRun(self.scn, self.out_paths, self.header, self.rows, self.use_real_pool)
         step = 0
         try:
@@ -681,6 +682,7 @@ class History:
                 self.failed_calls.append((self.sessions, a, s))
         if run.main_error:
             self.failed_calls.append((self.sessions, MAIN, run.main_error[0]))
+        self.last_killed = bool(run.killed)
         if run.killed and self.events:
             self.events[-1]["_killed"] = True
         elif not run.killed and self.events and not self.deadlock and not self.hang and not run.main_error:
@@ -719,6 +721,11 @@ class History:
         evs = []
         last_files = None
         for ev in self.events:
+            if ev.get("session_marker") and last_files is None:
+                init = dict(self.init_files or {})
+                for a in self.scn.aggs:
+                    init["buf_" + a if own else "buf"] = {"ex": False, "ls": []}
+                last_files = init
             if ev.get("session_marker"):
                 evs.append({"p": MAIN, "op": ev["op"], "files": last_files})
                 continue
